@@ -65,7 +65,27 @@ func (u *rawUnit) cmdline() string {
 	if len(u.Options) > 0 {
 		g += ":" + strings.Join(u.Options, ",")
 	}
+	if !u.Recurse && len(u.Files) > 1 {
+		return "for f in " + strings.Join(u.mains(), " ") + "; do " + s + "-g " + g + " -o out $f; done"
+	}
 	return s + "-g " + g + " -o out " + u.Main
+}
+
+// mains: the files thriftgo is invoked on: the main file, and without -r every other file as well (a program is
+// then compiled file by file, which is how non-recursive generation is used).
+func (u *rawUnit) mains() []string {
+	out := []string{u.Main}
+	if !u.Recurse {
+		var rest []string
+		for p := range u.Files {
+			if p != u.Main {
+				rest = append(rest, p)
+			}
+		}
+		sort.Strings(rest)
+		out = append(out, rest...)
+	}
+	return out
 }
 
 // result of one pipeline run.
@@ -85,8 +105,7 @@ type checker struct {
 	mu       sync.Mutex
 	n        int
 	export   map[string]string // import path -> export data file
-	gcImp    types.Importer
-	fset     *token.FileSet
+	tcs      chan *tcCtx       // type-check contexts (a FileSet + a gc importer with its package cache each)
 	Runs     int
 	ws       chan *worker // pool of in-process generators (steering only); nil = always the binary
 	all      []*worker
@@ -147,15 +166,30 @@ func newChecker(root, repo, thriftgo string) (*checker, error) {
 			c.export[ln[:i]] = ln[i+1:]
 		}
 	}
-	c.fset = token.NewFileSet()
-	c.gcImp = importer.ForCompiler(c.fset, "gc", func(path string) (io.ReadCloser, error) {
+	const nctx = 8
+	c.tcs = make(chan *tcCtx, nctx)
+	for i := 0; i < nctx; i++ {
+		c.tcs <- c.newCtx()
+	}
+	return c, nil
+}
+
+type tcCtx struct {
+	fset  *token.FileSet
+	gcImp types.Importer
+	uses  int
+}
+
+func (c *checker) newCtx() *tcCtx {
+	t := &tcCtx{fset: token.NewFileSet()}
+	t.gcImp = importer.ForCompiler(t.fset, "gc", func(path string) (io.ReadCloser, error) {
 		f, ok := c.export[path]
 		if !ok {
 			return nil, fmt.Errorf("no export data for %q", path)
 		}
 		return os.Open(f)
 	})
-	return c, nil
+	return t
 }
 
 // run executes the pipeline for one raw unit with the thriftgo BINARY. typecheck=false stops after go/parser.
@@ -190,37 +224,44 @@ func (c *checker) runWith(u *rawUnit, typecheck, viaWorker bool) *result {
 	}
 	opts := append(append([]string{}, u.Options...), "package_prefix=batch/"+key)
 	out := filepath.Join(c.root, "mod", key)
-	var args []string
-	if u.Recurse {
-		args = append(args, "-r")
+	for _, mainFile := range u.mains() {
+		var args []string
+		if u.Recurse {
+			args = append(args, "-r")
+		}
+		args = append(args, "-g", be+":"+strings.Join(opts, ","), "-o", out, mainFile)
+		exit, stderr := -1, ""
+		if viaWorker {
+			w := <-c.ws
+			exit, stderr = w.invoke(idl, args, filepath.Join(idl, ".thriftgo.log"))
+			c.ws <- w
+			c.mu.Lock()
+			c.FastRuns++
+			c.mu.Unlock()
+		} else {
+			cmd := exec.Command(c.thriftgo, args...)
+			cmd.Dir = idl
+			var eb bytes.Buffer
+			cmd.Stderr, cmd.Stdout = &eb, &eb
+			err := cmd.Run()
+			stderr = eb.String()
+			switch e := err.(type) {
+			case nil:
+				exit = 0
+			case *exec.ExitError:
+				exit = e.ExitCode()
+			default:
+				stderr += "\n" + err.Error()
+			}
+		}
+		res.Stderr += stderr
+		res.Exit = exit
+		if exit != 0 {
+			break
+		}
 	}
-	args = append(args, "-g", be+":"+strings.Join(opts, ","), "-o", out, u.Main)
-	if viaWorker {
-		w := <-c.ws
-		res.Exit, res.Stderr = w.invoke(idl, args, filepath.Join(idl, ".thriftgo.log"))
-		c.ws <- w
-		c.mu.Lock()
-		c.FastRuns++
-		c.mu.Unlock()
-		if res.Exit < 0 {
-			return res
-		}
-	} else {
-		cmd := exec.Command(c.thriftgo, args...)
-		cmd.Dir = idl
-		var eb bytes.Buffer
-		cmd.Stderr, cmd.Stdout = &eb, &eb
-		err := cmd.Run()
-		res.Stderr = eb.String()
-		switch e := err.(type) {
-		case nil:
-			res.Exit = 0
-		case *exec.ExitError:
-			res.Exit = e.ExitCode()
-		default:
-			res.Stderr += "\n" + err.Error()
-			return res
-		}
+	if res.Exit < 0 {
+		return res
 	}
 	if res.Exit != 0 {
 		return res
@@ -249,6 +290,7 @@ func (c *checker) cleanup(r *result) {
 
 type localImporter struct {
 	c      *checker
+	t      *tcCtx
 	prefix string // "batch/s12/"
 	mod    string
 	pkgs   map[string]*types.Package
@@ -259,7 +301,7 @@ type localImporter struct {
 
 func (li *localImporter) Import(path string) (*types.Package, error) {
 	if !strings.HasPrefix(path, li.prefix) {
-		return li.c.gcImp.Import(path)
+		return li.t.gcImp.Import(path)
 	}
 	if p, ok := li.pkgs[path]; ok {
 		return p, nil
@@ -283,18 +325,22 @@ func (li *localImporter) Import(path string) (*types.Package, error) {
 		}
 		*li.errs = append(*li.errs, msg)
 	}}
-	p, _ := cfg.Check(path, li.c.fset, fs, nil)
+	p, _ := cfg.Check(path, li.t.fset, fs, nil)
 	li.pkgs[path] = p
 	return p, nil
 }
 
 func (c *checker) typecheck(res *result, key string, full bool) {
 	mod := filepath.Join(c.root, "mod")
-	c.mu.Lock() // one FileSet and one gc importer: serialise
-	defer c.mu.Unlock()
+	t := <-c.tcs
+	t.uses++
+	if t.uses > 400 { // the FileSet only grows: start afresh now and then
+		t = c.newCtx()
+	}
+	defer func() { c.tcs <- t }()
 	files := map[string][]*ast.File{}
 	for _, f := range res.GoFiles {
-		af, err := parser.ParseFile(c.fset, filepath.Join(mod, f), nil, parser.SkipObjectResolution)
+		af, err := parser.ParseFile(t.fset, filepath.Join(mod, f), nil, parser.SkipObjectResolution)
 		if err != nil {
 			res.ParseErrs = append(res.ParseErrs, f+": "+firstLine(err.Error()))
 			continue
@@ -305,7 +351,7 @@ func (c *checker) typecheck(res *result, key string, full bool) {
 	if !full || len(res.ParseErrs) > 0 {
 		return
 	}
-	li := &localImporter{c: c, prefix: "batch/" + key + "/", mod: mod, pkgs: map[string]*types.Package{}, busy: map[string]bool{}, files: files, errs: &res.TypeErrs}
+	li := &localImporter{c: c, t: t, prefix: "batch/" + key + "/", mod: mod, pkgs: map[string]*types.Package{}, busy: map[string]bool{}, files: files, errs: &res.TypeErrs}
 	dirs := make([]string, 0, len(files))
 	for d := range files {
 		dirs = append(dirs, d)
@@ -324,14 +370,19 @@ func firstLine(s string) string {
 }
 
 var reUnitDir = regexp.MustCompile(`(?:^|[\s/])([su]\d+)/`)
-var reLoadErr = regexp.MustCompile(`import cycle not allowed|is not in std|no required module provides|cannot find package|malformed import path|no Go files in`)
+var reLoadErr = regexp.MustCompile(`import cycle not allowed|is not in std|no required module provides|cannot find package|malformed import path|no Go files in|^pattern |matched no packages`)
 
 // goBuild runs `go build` (or `go vet`) for the directories dirs of the module mod and returns the output lines
 // per directory. A package that cannot even be LOADED (import cycle, missing package) makes the go command stop
 // before compiling anything: such directories are taken out and the rest is built again.
 func goBuild(mod string, dirs []string, vet bool) map[string][]string {
 	out := map[string][]string{}
-	left := append([]string(nil), dirs...)
+	var left []string
+	for _, d := range dirs {
+		if fi, err := os.Stat(filepath.Join(mod, d)); err == nil && fi.IsDir() {
+			left = append(left, d)
+		}
+	}
 	for round := 0; round < 8 && len(left) > 0; round++ {
 		args := []string{"build"}
 		if vet {
@@ -344,6 +395,9 @@ func goBuild(mod string, dirs []string, vet bool) map[string][]string {
 		cmd.Dir = mod
 		cmd.Env = append(os.Environ(), goEnv...)
 		b, _ := cmd.CombinedOutput()
+		if os.Getenv("C01_DEBUG") != "" {
+			fmt.Fprintf(os.Stderr, "goBuild round %d: %d dirs, %d bytes of output\n%.600s\n", round, len(left), len(b), b)
+		}
 		got := map[string][]string{}
 		loadErr := map[string]bool{}
 		cur := ""
@@ -351,7 +405,13 @@ func goBuild(mod string, dirs []string, vet bool) map[string][]string {
 			if strings.TrimSpace(ln) == "" || strings.HasPrefix(ln, "#") {
 				continue
 			}
-			t := strings.TrimPrefix(strings.TrimPrefix(strings.TrimSpace(ln), "vet: "), "./")
+			raw := strings.TrimSpace(ln)
+			t := strings.TrimPrefix(strings.TrimPrefix(raw, "vet: "), "./")
+			if vet && !strings.HasPrefix(raw, "vet: ") && !reLoadErr.MatchString(t) && !strings.HasPrefix(raw, "package ") && !strings.HasPrefix(raw, "imports ") {
+				// an analyser's opinion (copylocks, structtag, …): not a verdict of the type checker, not C01's
+				got["analyser"] = append(got["analyser"], t)
+				continue
+			}
 			if m := reUnitDir.FindStringSubmatch(t); m != nil {
 				cur = m[1]
 			}
